@@ -281,6 +281,60 @@ def oracle_all(ctx, o, first_only=False):
                     continue
                 st, v = vc.safe_call(lambda: hh.verify(hs, other))
                 chk("libpass:near-miss-rejected", st == "ok" and v is False, dict(inp, other=other.hex()), str(v)[:80], "False")
+    # ---- long passwords (beyond every block size and every "sane" bound, up to the library's maximum): hash, identify, verify own
+    for name in vc.all_names():
+        h = vc.handler(name)
+        if name in EXPENSIVE or name in ("scrypt", "sun_md5_crypt", "cisco_pix", "cisco_asa") or name in vc.DISABLED:
+            continue
+        hh = vc.using(h, vc.cheap_settings(h, rng))
+        ck = vc.ctx_kwds(h, rng)
+        for ln in ((257, 4096) if not ctx.thorough else (255, 256, 257, 300, 1000, 2048, 4095, 4096)):
+            secret = "".join(rng.choice("abcdefghijklmnopqrstuvwxyz") for _ in range(ln))
+            inp = {"op": "long-secret", "hasher": name, "length": ln}
+            st, hs = vc.safe_call(lambda: hh.hash(secret, **ck))
+            if st == "err":
+                chk(name + ":long-secret-hash", isinstance(hs, (UnicodeEncodeError,)) or "Truncate" in errname(hs), inp, errname(hs) + ": " + str(hs)[:80], "a hash")
+                continue
+            st, v = vc.safe_call(lambda: (hh.identify(hs), hh.verify(secret, hs, **ck), hh.verify(secret.encode(), hs, **ck)))
+            chk(name + ":long-secret-verifies-own", st == "ok" and v == (True, True, True), inp, (hs[:60], str(v)[:60]), "identified; verifies the password it was made from, text and bytes")
+        if fails and first_only:
+            return fails
+    # ---- every backend of a multi-backend hasher: text and its UTF-8 bytes are the same password under each of them
+    import passlib.utils.handlers as _uh
+
+    for name in vc.all_names():
+        h = vc.handler(name)
+        base = getattr(h, "wrapped", h)
+        if not (isinstance(base, type) and issubclass(base, _uh.BackendMixin)) or name in EXPENSIVE and name not in ("bcrypt", "bcrypt_sha256"):
+            continue
+        try:
+            orig = base.get_backend()
+        except Exception:  # noqa: BLE001
+            continue
+        try:
+            for be in base.backends:
+                try:
+                    if not base.has_backend(be):
+                        continue
+                    base.set_backend(be)
+                except Exception:  # noqa: BLE001
+                    continue
+                hh = vc.using(h, vc.cheap_settings(h, rng))
+                ck = vc.ctx_kwds(h, rng)
+                for text in ("p\u00e4ssw\u00f6rd", "\u5bc6\u7801-\u00e9", "caf\u00e9" * 5):
+                    raw = text.encode("utf-8")
+                    inp = {"op": "backend-text-bytes", "hasher": name, "backend": be, "secret": text}
+                    st, v = vc.safe_call(lambda: (hh.verify(raw, hh.hash(text, **ck), **ck), hh.verify(text, hh.hash(raw, **ck), **ck), hh.verify(text, hh.hash(text, **ck), **ck)))
+                    if st == "err" and isinstance(v, (UnicodeEncodeError, UnicodeDecodeError)):
+                        continue
+                    chk(name + ":backend-text-equals-bytes", st == "ok" and v == (True, True, True), inp, str(v)[:100], "text and its UTF-8 bytes verify each other's hashes")
+        finally:
+            try:
+                base.set_backend(orig)
+            except Exception:  # noqa: BLE001
+                pass
+        if fails and first_only:
+            return fails
     return fails
 
 
